@@ -165,8 +165,15 @@ def run(F, R, tier):
         rets = [n for n in walk(f["body"]) if n.get("k") == "ReturnStmt"]
         R.check("K1", len(rets) == 1 and not St.contains(tr, rets[0]), "%s: single return after the checks" % inst,
                 F.loc(f), "value is returned from inside the try block before the checks", key="K1|return")
-    if seen_sites < 3:
+    if seen_sites < 2:
         R.broken("K1: only %d live std::sto* conversion sites found" % seen_sites)
+    # ---- K7: a parsed integer is not narrowed afterwards ---------------------------------------------------------
+    R.rule("K7", "a parsed key / index token is not narrowed to a smaller integer type without a range test (a token that "
+                 "overflows the type it is used as must be rejected, not aliased to another key)", 0)
+    from .rules_c14 import narrowing_check
+    nn, nd = narrowing_check(F, R, "K7")
+    if nn < 2:
+        R.soft_broken("K7: the narrowing sites of convert_to<> (dead template branches) were not seen: extraction incomplete")
     # all token conversions in the reader go through convert_to
     R.rule("K1b", "every token read from a data line / block header in GM2_slha_io is converted through convert_to", 6)
     for k, f in sorted(F.functions.items()):
@@ -361,6 +368,24 @@ def run(F, R, tier):
         R.check("K4", bool(ok and in_loop), inst, F.loc(f),
                 "blocks are not looked up through the case-insensitive SLHAea find in a loop over all matches",
                 key="K4|%s|find" % re.sub(r"<.*", "", f["name"]))
+        if f["name"].split("::")[-1].startswith("read_block") and loops:
+            # every block that passes the scale filter is read, in file order (entries named only by an earlier block survive)
+            per_block = [n for n in walk(f["body"]) if is_call(n) and str(n.get("fn") or "").split("<")[0].endswith("GM2_slha_io::read_block")
+                         and n.get("mg") in F.functions and "Block" in str(F.functions[n["mg"]]["params"][0].get("t"))]
+            Sx = Struct(f)
+            Rx = Renderer(f, resolve_locals=False)
+            okb, whyb = bool(per_block), "no per-block reader call"
+            for n in per_block:
+                if not any(y is n for y in walk(loops[0])):
+                    okb, whyb = False, "the per-block reader at line %s runs outside the loop over the blocks: only one block is read" % n.get("l")
+                    break
+                gs = [(Rx.r(c), pol) for c, pol in Sx.guards(n) if c != "switch" and not any(c is loops[0].get("cond") for _ in [0])]
+                gs = [(t, pol) for t, pol in gs if "cend()" not in t and "end()" not in t]
+                if not (len(gs) == 1 and gs[0][1] is True and gs[0][0].startswith("is_at_scale(")):
+                    okb, whyb = False, "the per-block reader is conditional on %s (documented: every block at the scale)" % gs
+                    break
+            R.check("K4", okb, "%s(block_name, ...): every block at the scale is read inside the loop" % f["name"].split("::")[-1],
+                    F.loc(f), whyb, key="K4|%s|every" % re.sub(r"<.*", "", f["name"]) + ("|m" if "Matrix" in str(f["params"][1].get("t")) else "|p"))
     for k, f in sorted(F.functions.items()):
         if f["file"] not in ("src/gm2_slha_io.cpp", "src/gm2_slha_io.hpp", "src/gm2calc.cpp"):
             continue
